@@ -46,6 +46,10 @@ def setup_registry(declared):
     REG.clear_language_registrations()
     REG.clear_generator_registrations()
     mm = metamodel_from_str(GRAMMAR)
+    # the language declares model parameters whose names the symbolic flag names
+    # can take: such arguments go to the model *and* to the generator
+    for mp in ('a', 'a_a', '_a'):
+        mm.model_param_defs.add(mp, 'model parameter of the harness language')
     REG.register_language(REG.LanguageDesc('c30lang', pattern='*.c30l', description='x',
                                            metamodel=lambda: mm))
     params = None
